@@ -142,6 +142,10 @@ type c20Case struct {
 	send func(ctx context.Context, s *drive.Srv) error
 }
 
+// c20ThenGC marks a case after whose requests the emulator's own garbage-collection pass is run once over table fz4 (the
+// pass the emulator starts by itself every minute on idle tables; here through the hook entry point in the child).
+const c20ThenGC = "[then a garbage-collection pass over fz4] "
+
 func drainRows(st btpb.Bigtable_ReadRowsClient, err error) error {
 	if err != nil {
 		return err
@@ -340,6 +344,41 @@ func hostileRowSet(r *common.Rand) *btpb.RowSet {
 // c20GenCase generates one structure-level hostile request.
 func c20GenCase(r *common.Rand) c20Case {
 	tbl := hostileTable(r)
+	if r.Chance(1, 12) {
+		// a hostile garbage-collection rule is input too: whatever rule a CreateTable / ModifyColumnFamilies request
+		// was allowed to install, the pass that later applies it to stored cells must not take the emulator down
+		rule := hostileGc(r, 2)
+		viaCreate := r.Bool()
+		viaUpdate := r.Bool()
+		name := drive.TableName(drive.Parent, "fz4")
+		return c20Case{c20ThenGC + fmt.Sprintf("re-create fz4 with family h rule=%v (at creation=%v, else by %s); two versions in h:q", rule, viaCreate, map[bool]string{true: "update", false: "create"}[viaUpdate]),
+			func(ctx context.Context, s *drive.Srv) error {
+				s.Admin.DeleteTable(ctx, &btapb.DeleteTableRequest{Name: name})
+				fams := map[string]*btapb.ColumnFamily{"keep": {}}
+				if viaCreate {
+					fams["h"] = &btapb.ColumnFamily{GcRule: rule}
+				} else if viaUpdate {
+					fams["h"] = &btapb.ColumnFamily{}
+				}
+				_, err := s.Admin.CreateTable(ctx, &btapb.CreateTableRequest{Parent: drive.Parent, TableId: "fz4", Table: &btapb.Table{ColumnFamilies: fams}})
+				if err != nil && viaCreate {
+					// the rule was refused: fine; the table is created without it so that the pass has something to do
+					delete(fams, "h")
+					s.Admin.CreateTable(ctx, &btapb.CreateTableRequest{Parent: drive.Parent, TableId: "fz4", Table: &btapb.Table{ColumnFamilies: fams}})
+				}
+				if !viaCreate {
+					mod := &btapb.ModifyColumnFamiliesRequest_Modification{Id: "h", Mod: &btapb.ModifyColumnFamiliesRequest_Modification_Create{Create: &btapb.ColumnFamily{GcRule: rule}}}
+					if viaUpdate {
+						mod.Mod = &btapb.ModifyColumnFamiliesRequest_Modification_Update{Update: &btapb.ColumnFamily{GcRule: rule}}
+					}
+					_, err = s.Admin.ModifyColumnFamilies(ctx, &btapb.ModifyColumnFamiliesRequest{Name: name, Modifications: []*btapb.ModifyColumnFamiliesRequest_Modification{mod}})
+				}
+				for _, fam := range []string{"h", "keep"} {
+					s.Data.MutateRow(ctx, &btpb.MutateRowRequest{TableName: name, RowKey: []byte("r"), Mutations: drive.MutsToProto([]model.Mut{{Kind: model.SetCell, Fam: fam, Qual: "q", TS: 1000, Val: "a"}, {Kind: model.SetCell, Fam: fam, Qual: "q", TS: 2000, Val: "b"}})})
+				}
+				return err
+			}}
+	}
 	switch r.Intn(16) {
 	case 0, 1, 2:
 		req := &btpb.ReadRowsRequest{TableName: tbl, Rows: hostileRowSet(r), Filter: hostileFilter(r, 3), RowsLimit: hostileInt64(r)}
@@ -733,6 +772,18 @@ func c20Fuzz(run *common.Run, scratch string) {
 					_ = ch.s.child.cmd.Process.Signal(os.Interrupt)
 				case code == codes.Unavailable:
 					bad = "transport failure while the child is alive: " + err.Error()
+				}
+				if bad == "" && strings.HasPrefix(c.desc, c20ThenGC) {
+					ch.s.child.send("gc " + drive.TableName(drive.Parent, "fz4"))
+					if l, gerr := ch.s.child.readLine(120 * time.Second); gerr != nil || l != "GCDONE" {
+						ch.aliveSettled()
+						if !ch.alive() {
+							bad = "the emulator process died in the garbage-collection pass that followed the request: " + firstPanicLine(ch.s.child.stderrTail(400))
+						} else {
+							bad = fmt.Sprintf("the garbage-collection pass that followed the request did not finish within 120 s: %v %q", gerr, l)
+						}
+					}
+					run.Count("gc_passes_after_hostile_rules", 1)
 				}
 				if bad == "" {
 					bad = ch.probeCheck(i)
